@@ -348,9 +348,12 @@ impl Expr {
                     if let Some(ty) = ty {
                         let ty = ty.disregard_distractors(false);
 
-                        if ty.is_optional().1.is_some() && fallback.is_optional().1.is_some() {
+                        if ty.is_optional().1.is_some()
+                            && fallback.is_optional().1.is_some()
+                            && !ty.eq_complex(&fallback, flags)
+                        {
                             // only check if neither of the operands is `nil`
-                            assert_eq!(ty, &fallback);
+                            bail!("the `or` portion of this unwrap must yield `{ty}`, but `{fallback}` was found")
                         }
 
                         ty.clone()
@@ -359,10 +362,12 @@ impl Expr {
                         fallback
                     }
                 } else {
-                    assert_eq!(
-                        primary.disregard_distractors(false),
-                        fallback.disregard_distractors(false)
-                    );
+                    if !primary
+                        .disregard_distractors(false)
+                        .eq_complex(fallback.disregard_distractors(false), flags)
+                    {
+                        bail!("the `or` portion of this unwrap must yield `{primary}`, but `{fallback}` was found")
+                    }
                     primary
                 })
             }
